@@ -46,18 +46,14 @@ impl Print {
 
 impl LyNative for Print {
   fn call(&self, hooks: &mut Hooks, args: &[Value]) -> Call {
-    let str_method = hooks.get_method(args[0], self.method_str)?;
-    let mut output = String::from(
-      &*hooks
-        .call_method(args[0], str_method, &[])?
-        .to_obj()
-        .to_str(),
-    );
+    let mut output = String::new();
 
-    for s in args.iter().skip(1) {
+    for (index, s) in args.iter().enumerate() {
       let str_method = hooks.get_method(*s, self.method_str)?;
 
-      output.push(' ');
+      if index > 0 {
+        output.push(' ');
+      }
       output.push_str(&hooks.call_method(*s, str_method, &[])?.to_obj().to_str())
     }
 
